@@ -456,6 +456,21 @@ def run(ctx):
             ops, kinds = gen_table_history(ctx.rng, schema, 30 + (k % 3) * 15)
             cases.append({"id": "tb%d" % n, "schema": schema, "ops": ops, "_kinds": sorted(kinds), "_table": True})
             n += 1
+    # recordings of several hours: more than 2^20 / 2^21 waveform entries (made inside the executor), through every way in
+    for i, schema in enumerate(ALL_SCHEMAS):
+        nbig = [1134000, 2 ** 20 + 1, 1049089, 2 ** 21 + 3, 1500000][i % 5] if ctx.tier == "quick" else ctx.rng.choice([1134000, 2 ** 21 + 3, 3000000, 5000000])
+        base = {"relative_path": GS.hx("long/recording %d.wav" % i), "sample_rate": GS.dbits(44100.0), "sample_count": nbig * 400}
+        ops = [{"op": "create_temporary", "schema": schema},
+               {"op": "create_track", "as": "t0", "snap": base},
+               {"op": "set", "t": "t0", "field": "waveform", "value": {"gen": nbig, "seed": 7 + i}},
+               {"op": "get", "t": "t0", "field": "waveform"},
+               {"op": "snapshot", "t": "t0"},
+               {"op": "update_last", "t": "t0"},
+               {"op": "create_track", "as": "t1", "snap": dict(base, relative_path=GS.hx("long/second %d.wav" % i), waveform={"gen": nbig + 1, "seed": 3})},
+               {"op": "update", "t": "t0", "snap": dict(base, waveform={"gen": nbig - 1, "seed": 5})},
+               {"op": "observe_all", "snapshots": False}]
+        cases.append({"id": "long%d" % n, "schema": schema, "ops": ops, "_kinds": ["waveform:millions-of-entries"], "no_tz": True})
+        n += 1
     ctx.sample({"schema": cases[0]["schema"], "hostile_kinds": cases[0]["_kinds"], "n_ops": len(cases[0]["ops"])})
     ctx.assumptions += ["ASan+UBSan(float-cast-overflow, float-divide-by-zero)+_GLIBCXX_ASSERTIONS build; a single allocation above 128 MiB "
                         "fails with std::bad_alloc", "calls on removed handles other than copy/assign/destroy/id()/is_valid() are "
